@@ -94,6 +94,8 @@ func (b *Batch) Put(key []byte, value []byte) error {
 		b.cachedDataSize += newSize
 	} else {
 		// 如果缓存命中则直接修改缓存
+		// 之前可能被标记为删除, 需恢复为正常记录
+		logRecord.Type = datafile.LogRecordNormal
 		logRecord.Key = key
 		logRecord.Value = value
 		b.cachedDataSize += newSize - oldSize
